@@ -21,6 +21,9 @@ MPS_DEFS = {
              dict(pid='r2', stream='bbb', start_s=21, duration_s=15, tracks=[('video', 1, 'MAIN')]),
              dict(pid='r3', stream='tears', start_s=33, duration_s=23, tracks=[('video', 1, 'MAIN'), ('audio', 2, 'MAIN')])],
     # a period over a stream whose text track is stored without tfdt boxes and with fragments of unequal duration
+    # period durations with fractional seconds (the editing API accepts PT10.5S)
+    'mpsf': [dict(pid='f1', stream='bbb', start_s=4, duration_s=10.5, tracks=[('video', 1, 'MAIN'), ('audio', 2, 'MAIN')]),
+             dict(pid='f2', stream='tears', start_s=8, duration_s=8, tracks=[('video', 1, 'MAIN'), ('audio', 2, 'MAIN')])],
     'mpsv': [dict(pid='v1', stream='vtt', start_s=10, duration_s=24, tracks=[('video', 1, 'MAIN'), ('text', 4, 'MAIN')]),
              dict(pid='v2', stream='bbb', start_s=0, duration_s=12, tracks=[('video', 1, 'MAIN')])],
 }
@@ -102,7 +105,7 @@ def main(tier_: str) -> int:
                                             continue
                                         ts, sn, D = int(tm['timescale']), int(tm['startNumber'] or 1), int(tm['duration'])
                                         offset = pdef['start_s'] * ts
-                                        pdur = p['duration'] if p['duration'] is not None else pdef['duration_s'] * 10**6
+                                        pdur = p['duration'] if p['duration'] is not None else int(pdef['duration_s'] * 10**6)
                                         admitted = (pdur * ts // 10**6) // D
                                         # nearest stored segment -> what the source still has
                                         starts = [s.tfdt - sf.segments[0].tfdt for s in sf.segments]
